@@ -49,6 +49,10 @@ def deVec {σ : Type} (rd : Rd σ) (isU8 : Bool) (f : σ → Out (Val × σ)) (s
     else if isU8 then (rd.readBulk r.1 r.2).map fun q => (bytesVal q.1, q.2)
     else repeatDe f r.1 r.2
 
+/-- a map entry `(K, V)`: the key, then the value -/
+def deEntry {σ : Type} (dk dv : σ → Out (Val × σ)) (s : σ) : Out (Val × σ) :=
+  (dk s).bind fun a => (dv a.2).map fun b => (.list [a.1, b.1], b.2)
+
 /-- the init hook of the generated fixtures: the last field (a skipped counter) is incremented -/
 def applyInit : List Val → List Val
   | [] => []
@@ -112,9 +116,7 @@ def de {σ : Type} (rd : Rd σ) (strict : Bool) : Ty → σ → Out (Val × σ)
       else .ok (.list (collectSet r.1), r.2)
   | .map k kt vt, s =>
     if memZero kt then .err eZst
-    else (deVec rd false (fun s =>
-            (de rd strict kt s).bind fun a => (de rd strict vt a.2).map fun b =>
-              (.list [a.1, b.1], b.2)) s).bind fun r =>
+    else (deVec rd false (deEntry (de rd strict kt) (de rd strict vt)) s).bind fun r =>
       match k with
       | .indexMap => .ok (.list (collectIndexMap r.1), r.2)
       | _ =>
